@@ -3454,6 +3454,7 @@ static int bufr_load_datasubsets( FILE *fp, BUFR_Dataset *dts, int lineno, BUFR_
    LinkedList    *tmplist;
    int            debug;
    int            errflg=0;
+   int            quoted;
 
    debug = bufr_is_debug();
    count = arr_count( dts->tmplte->gabarit );
@@ -3694,11 +3695,13 @@ static int bufr_load_datasubsets( FILE *fp, BUFR_Dataset *dts, int lineno, BUFR_
             }
          }
 
+      quoted = 0;
       if (ptr[i] == '"') /* QUOTED STRING */
          {
+         quoted = 1;
          ptr = ptr+i+1; 
          tok = strtok_r( NULL, "\n\r", &ptr );
-         len = strlen( tok );
+         len = tok ? strlen( tok ) : 0;
          for ( i = len-1 ; i > 0 ; i-- )
             {
             if (tok[i] == '"')
@@ -3725,7 +3728,7 @@ static int bufr_load_datasubsets( FILE *fp, BUFR_Dataset *dts, int lineno, BUFR_
          switch( cb->value->type )
             {
             case VALTYPE_STRING :
-               if (strcmp( tok, "MSNG" ) != 0)
+               if (quoted || (strcmp( tok, "MSNG" ) != 0))
                   {
                   bufr_descriptor_set_svalue( cb, tok );
                   }
@@ -3736,6 +3739,7 @@ static int bufr_load_datasubsets( FILE *fp, BUFR_Dataset *dts, int lineno, BUFR_
 
                   tmpbuf = (char *)malloc( (len+1)*sizeof(char) );
                   bufr_missing_string( tmpbuf, len );
+                  tmpbuf[len] = '\0';
                   bufr_descriptor_set_svalue( cb, tmpbuf );
                   free( tmpbuf );
                   }
